@@ -74,6 +74,10 @@ class Check(object):
             t = 'normalisation: %s is analysed under its reference name %s (matched by fingerprint)' % (k, v)
             if t not in self.notes:
                 self.notes.append(t)
+        for name, into, f, line in getattr(prog, 'inlined_procs', []):
+            t = 'normalisation: new static helper %s() expanded in %s() at %s:%s' % (name, into, rel(f) if f else '?', line)
+            if t not in self.notes:
+                self.notes.append(t)
         for name, f, line in getattr(prog, 'inlined_helpers', []):
             t = 'normalisation: pure helper %s() expanded at %s:%s' % (name, rel(f) if f else '?', line)
             if t not in self.notes:
